@@ -379,6 +379,7 @@ def child(arg):
   workdir = os.path.join(SCRATCH, f"c15-{os.getpid()}")
   os.makedirs(workdir, exist_ok=True)
   part = arg.get("partial")
+  watchdog = arg["watchdog"] * (5 if variant == "asan" else 1)   # ASan's allocator under memory pressure
   recs = []
   try:
     pf = open(part, "a") if part else None
@@ -386,7 +387,7 @@ def child(arg):
       if pf:
         pf.write(json.dumps({"current": item["id"]}) + "\n")
         pf.flush()
-      rec = run_item(item, workdir, arg["watchdog"], k)
+      rec = run_item(item, workdir, watchdog, k)
       recs.append(rec)
       if pf:
         pf.write(json.dumps({"done": rec}, default=repr) + "\n")
